@@ -74,13 +74,8 @@ impl<C, B> std::ops::DerefMut for PoolGuard<C, B> where C: PoolableConnection<B>
     { unimplemented!() }
 }
 
-impl<C, B> Pooled<C, B> where C: PoolableConnection<B>, B: Send + 'static {
-    /// A: `Pooled::take(mut self)` - `mut self` receivers are outside Verus' subset
-    #[verifier::external_body]
-    pub fn take(self) -> (r: Option<C>)
-        ensures r == self.connection
-    { unimplemented!() }
-}
+// `Pooled::take(mut self)` is no longer a stand-in of this file: units `pool` and `checkout` (whose extracted
+// `PoolInner::push` calls it) IMPORT its contract from unit `pooltake`, where it is proved on the real body (take.*).
 
 // ---- tokio stand-ins (paths as written in /repo) ----
 /// ghost: the future `f` was handed to the runtime (it will be polled to completion or dropped)
@@ -91,6 +86,10 @@ pub uninterp spec fn spawned<F>(f: F) -> bool;
 pub struct Receiver<T> { inner: std::marker::PhantomData<T> }
 impl<T> Receiver<T> {
     pub uninterp spec fn id(&self) -> int;
+    /// a `poll` has returned Ready (tokio panics with "called after complete" when polled again: the
+    /// precondition of `poll` is a proof obligation of every caller).  Declared here, next to `channel()`; the
+    /// receiver's `poll` / `close` stand-ins are in prelude/checkout.rs.
+    pub uninterp spec fn done(&self) -> bool;
 }
 
 pub mod tokio {
@@ -104,7 +103,10 @@ pub mod tokio {
         use super::super::super::*;
         #[verifier::external_body]
         pub fn channel<T>() -> (r: (Sender<T>, Receiver<T>))
-            ensures r.0.id() == r.1.id()
+            ensures r.0.id() == r.1.id(),
+                // a new receiver has not been polled (needed by the precondition of `Checkout::new`, which unit `pool`
+                // imports from unit `checkout` and has to establish at its call sites)
+                !r.1.done(),
         { unimplemented!() }
     } }
 }
